@@ -30,7 +30,8 @@ def h_release(k0: int, k1: int, k2: int, k3: int, k4: int, k5: int, k6: int, k7:
     o = Opts(fl=[P("fl", "agen")] * 4, ffl=P("ffl", "def"))
     fault = make_fault(z) if mode == "fault" else None
     Wa = World("a", fault_at=(y if mode == "fault" else 0), fault=fault)
-    D = Driver(Wa, sync_only=True)
+    Wa.close_susp = P("close_susp", 0)
+    D = Driver(Wa, sync_only=(Wa.close_susp == 0))
     ok = True
     try:
         st = start_async(op, kind, Wa, d, o)
@@ -304,6 +305,12 @@ def jobs(tier):
                 add("h_release", op=op, S=S, N=2, mode="close", X=(0, 5), fl=fl, **kw)
                 add("h_release", op=op, S=S, N=2, mode="fault", X=(5, 5), Y=(1, 8), Z=(0, 2), fl=fl, ffl=("adef" if fl == "acls" else "def"), **kw)
                 add("h_release", op=op, S=S, N=(1 if q else 2), mode="athrow", X=(1, 3), fl=fl, **kw)
+        # sources whose aclose() has to suspend: an abandoned inner generator cannot close them
+        # for us when it is garbage collected
+        for op in TOOLS2 + TOOLS1:
+            kw = {"form": 2, "PR": 2, "b0": False, "b1": False} if op == "islice" else {}
+            S_ = 2 if op in TOOLS2 else 1
+            add("h_release", op=op, S=S_, N=2, mode="close", X=(0, 3), fl=fl, close_susp=1, **kw)
         for op in ("zip", "zip_longest", "chain", "merge"):
             add("h_release", op=op, S=3, N=1, mode="close", X=(0, 4), fl=fl)
             add("h_release", op=op, S=3, N=1, mode="fault", X=(4, 4), Y=(1, 7), Z=(0, 2), fl=fl)
@@ -318,7 +325,7 @@ def jobs(tier):
 
 
 BOUNDS = {
-    "quick": "per tool: j=0..N+1 items taken then aclose; or one fault (3 kinds) at symbolic use position k; or consumer athrow after j items; N<=2 items per source, S<=3 sources; sources = async generators and class-based iterators with aclose; tee: 2..3 children, j_i items each, every closing order or handle.aclose(); groupby: 0..3 advances, 0..2 group items, then aclose; aggregations incl. failures in +, hash, unpack and comparison",
+    "quick": "per tool: j=0..N+1 items taken then aclose (also with sources whose aclose() suspends); or one fault (3 kinds) at symbolic use position k; or consumer athrow after j items; N<=2 items per source, S<=3 sources; sources = async generators and class-based iterators with aclose; tee: 2..3 children, j_i items each, every closing order or handle.aclose(); groupby: 0..3 advances, 0..2 group items, then aclose; aggregations incl. failures in +, hash, unpack and comparison",
     "thorough": "N<=3",
 }
 OUTSIDE = ["invalid parameters (batched n<1: the tool refuses before taking ownership)", "chain.from_iterable owns only the iterables already fetched from the outer iterable (documented)", "generator-based tools that were never advanced (the property's obligation starts with the first advance)", "sources without aclose (nothing to release)", "lengths above the bound"]
